@@ -90,6 +90,7 @@ type history struct {
 	uploads      []time.Time
 	log          []string
 	inconsistent bool // the generator deleted a child while the parent referenced it
+	ties         int  // same-second upload pairs (child edit, then parent version under another changeset)
 }
 
 var (
@@ -97,8 +98,8 @@ var (
 	basePre    = time.Date(2009, 3, 1, 12, 0, 0, 0, time.UTC)
 )
 
-var thCommit = []time.Duration{30 * time.Minute, 0, time.Second, time.Minute}
-var thPre = []time.Duration{30 * time.Minute, time.Second, time.Minute, 2 * time.Hour}
+var thCommit = []time.Duration{30 * time.Minute, 0, time.Second, time.Minute, 2 * time.Hour}
+var thPre = []time.Duration{30 * time.Minute, time.Second, time.Minute, 2 * time.Hour, 0}
 
 // genOpts parametrises the history generator.
 type genOpts struct {
@@ -143,8 +144,8 @@ func genHistory(t *kit.Tape, o genOpts) *history {
 	}
 	pre := h.regime != "commit" // the history starts before commit times were recorded
 	sep := pre && o.separated
-	ti := t.Draw(5)
-	if ti == 4 {
+	ti := t.Draw(6)
+	if ti == 5 {
 		ti = 0
 		h.thDefault = true
 	}
@@ -204,6 +205,8 @@ func genHistory(t *kit.Tape, o genOpts) *history {
 		}
 	}
 	upload := -1
+	cluster := -1     // uploads committed in the same second form one cluster (separated regimes: one version per element per cluster)
+	noJitter := false // the element timestamp is exactly the upload time
 	preEra := pre
 	var cs osm.ChangesetID
 	note := func(f string, a ...interface{}) { h.log = append(h.log, fmt.Sprintf(f, a...)) }
@@ -212,7 +215,10 @@ func genHistory(t *kit.Tape, o genOpts) *history {
 		v.upload = upload
 		v.cs = cs
 		v.commit = clock
-		if preEra {
+		if noJitter {
+			v.ts = clock
+			v.hasCommit = !preEra
+		} else if preEra {
 			d := t.Draw(2*jitMax + 1)
 			j := (d + 1) / 2
 			if d%2 == 0 {
@@ -234,7 +240,7 @@ func genHistory(t *kit.Tape, o genOpts) *history {
 		s := st[k]
 		s.version = nextVersion(s.version)
 		s.exists, s.visible = true, visible
-		s.lastUpload = upload
+		s.lastUpload = cluster
 		s.nv++
 		v := &ver{k: k, version: s.version, visible: visible}
 		stamp(v)
@@ -286,22 +292,25 @@ func genHistory(t *kit.Tape, o genOpts) *history {
 	if o.hard {
 		maxRefs = 7
 	}
-	parentEdit := func() bool {
+	parentEdit := func(first *key) bool {
 		vk := visibleKids()
-		if len(vk) == 0 || (sep && pst.lastUpload == upload) {
+		if len(vk) == 0 || (sep && pst.lastUpload == cluster) {
 			return false
 		}
 		n := 1 + t.Draw(maxRefs)
 		var ms []mem
 		for i := 0; i < n; i++ {
 			m := mem{k: vk[t.Draw(len(vk))]}
+			if i == 0 && first != nil {
+				m.k = *first
+			}
 			if parentRel {
 				m.role = roles[t.Draw(3)]
 			}
 			ms = append(ms, m)
 		}
 		pst.version = nextVersion(pst.version)
-		pst.exists, pst.visible, pst.mems, pst.lastUpload = true, true, ms, upload
+		pst.exists, pst.visible, pst.mems, pst.lastUpload = true, true, ms, cluster
 		v := &ver{k: h.parent, version: pst.version, visible: true, mems: ms}
 		stamp(v)
 		h.parents = append(h.parents, v)
@@ -318,7 +327,7 @@ func genHistory(t *kit.Tape, o genOpts) *history {
 			return
 		}
 		k := vk[t.Draw(len(vk))]
-		if sep && st[k].lastUpload == upload {
+		if sep && st[k].lastUpload == cluster {
 			return
 		}
 		v := addKid(k, true)
@@ -342,13 +351,18 @@ func genHistory(t *kit.Tape, o genOpts) *history {
 	if h.regime == "mixed" {
 		switchAt = 1 + t.Draw(nUploads)
 	}
+	var tieKid *key // the previous upload was a same-second upload that edited this child
 	for u := 0; u < nUploads; u++ {
 		upload = u
 		cs = osm.ChangesetID(1000 + u)
 		if u == switchAt {
 			preEra = false
 		}
-		if u > 0 {
+		follow := tieKid != nil
+		if !follow {
+			cluster++
+		}
+		if u > 0 && !follow {
 			if sep {
 				gap := 3*h.th + time.Second + time.Duration(t.Pick(0, 1, 7, 3600, 86400*30))*time.Second
 				clock = clock.Add(gap)
@@ -392,8 +406,30 @@ func genHistory(t *kit.Tape, o genOpts) *history {
 				}
 			}
 		}
+		if sep && u > 0 && !follow && u+1 < nUploads && u+1 != switchAt && t.Chance(1, 4) {
+			// same-second uploads: this upload only edits one child; the next upload, committed in the
+			// same second under another changeset, starts with a parent version referring to that child.
+			// Logged before the parent version and carrying its very timestamp, the child version is
+			// current for it.
+			if vk := visibleKids(); len(vk) > 0 {
+				k := vk[t.Draw(len(vk))]
+				noJitter = true
+				v := addKid(k, true)
+				noJitter = false
+				note("  %s (same second as the next upload)", v)
+				tieKid = &k
+				h.ties++
+				continue
+			}
+		}
+		if follow {
+			noJitter = true
+			parentEdit(tieKid)
+			noJitter = false
+			tieKid = nil
+		}
 		if u == parentAt {
-			parentEdit()
+			parentEdit(nil)
 		}
 		if u == 0 {
 			continue
@@ -404,7 +440,7 @@ func genHistory(t *kit.Tape, o genOpts) *history {
 			case opChildEdit:
 				childEdit()
 			case opParentEdit:
-				if u < parentAt || !parentEdit() {
+				if u < parentAt || !parentEdit(nil) {
 					childEdit()
 				}
 			case opBurst:
@@ -441,7 +477,7 @@ func genHistory(t *kit.Tape, o genOpts) *history {
 					break
 				}
 				k := vk[t.Draw(len(vk))]
-				if sep && st[k].lastUpload == upload {
+				if sep && st[k].lastUpload == cluster {
 					break
 				}
 				if referenced(k) {
@@ -456,7 +492,7 @@ func genHistory(t *kit.Tape, o genOpts) *history {
 			case opUndelete:
 				done := false
 				for _, k := range gen {
-					if st[k].exists && !st[k].visible && !(sep && st[k].lastUpload == upload) {
+					if st[k].exists && !st[k].visible && !(sep && st[k].lastUpload == cluster) {
 						v := addKid(k, true)
 						note("  %s (undeleted)", v)
 						done = true
@@ -467,12 +503,12 @@ func genHistory(t *kit.Tape, o genOpts) *history {
 					childEdit()
 				}
 			case opParentDelete:
-				if !pst.exists || !pst.visible || (sep && pst.lastUpload == upload) {
+				if !pst.exists || !pst.visible || (sep && pst.lastUpload == cluster) {
 					childEdit()
 					break
 				}
 				pst.version = nextVersion(pst.version)
-				pst.visible, pst.mems, pst.lastUpload = false, nil, upload
+				pst.visible, pst.mems, pst.lastUpload = false, nil, cluster
 				v := &ver{k: h.parent, version: pst.version, visible: false}
 				stamp(v)
 				h.parents = append(h.parents, v)
